@@ -7,6 +7,43 @@ use netflow_parser::variable_versions::{ipfix, v9};
 use netflow_parser::variable_versions::ipfix_lookup::IPFixField;
 use netflow_parser::variable_versions::v9_lookup::{ScopeFieldType, V9Field};
 
+use netflow_parser::variable_versions::data_number::{DataNumber, FieldValue};
+
+/// Stub for `FieldValue::to_be_bytes` in harnesses whose packets hold no data records: the
+/// function is never called on a feasible path (asserted), but CBMC cannot fold the flowset
+/// kind read back from the heap and would otherwise explore the whole value serializer
+/// (io::Error construction included) for every flowset.
+pub fn fv_to_be_bytes_unreachable(_v: &FieldValue) -> Result<Vec<u8>, std::io::Error> {
+    assert!(false);
+    Ok(Vec::new())
+}
+
+/// Exact model of `FieldValue::to_be_bytes` on the domain "unsigned numbers of width <= 4"
+/// (the real function is checked for every data type in the kernel harnesses).
+pub fn fv_to_be_bytes_unsigned_model(v: &FieldValue) -> Result<Vec<u8>, std::io::Error> {
+    let mut out = Vec::with_capacity(4);
+    match v {
+        FieldValue::DataNumber(DataNumber::U8(n)) => out.push(*n),
+        FieldValue::DataNumber(DataNumber::U16(n)) => {
+            out.push((*n >> 8) as u8);
+            out.push(*n as u8);
+        }
+        FieldValue::DataNumber(DataNumber::U24(n)) => {
+            out.push((*n >> 16) as u8);
+            out.push((*n >> 8) as u8);
+            out.push(*n as u8);
+        }
+        FieldValue::DataNumber(DataNumber::U32(n)) => {
+            out.push((*n >> 24) as u8);
+            out.push((*n >> 16) as u8);
+            out.push((*n >> 8) as u8);
+            out.push(*n as u8);
+        }
+        _ => assert!(false),
+    }
+    Ok(out)
+}
+
 fn v9_header() -> v9::Header {
     v9::Header { version: 9, count: kani::any(), sys_up_time: kani::any(), unix_secs: kani::any(), sequence_number: kani::any(), source_id: kani::any() }
 }
@@ -41,6 +78,7 @@ macro_rules! ser_v9_template {
     ($name:ident, $fcs:expr, $nrec:expr, $pad:expr) => {
         #[kani::proof]
         #[kani::stub(core::fmt::write, no_fmt)]
+        #[kani::stub(netflow_parser::variable_versions::data_number::FieldValue::to_be_bytes, fv_to_be_bytes_unreachable)]
         fn $name() {
             const FCS: [u16; 3] = $fcs;
             const NREC: usize = $nrec;
@@ -91,6 +129,7 @@ macro_rules! ser_v9_options_template {
     ($name:ident, $sl:expr, $ol:expr, $pad:expr) => {
         #[kani::proof]
         #[kani::stub(core::fmt::write, no_fmt)]
+        #[kani::stub(netflow_parser::variable_versions::data_number::FieldValue::to_be_bytes, fv_to_be_bytes_unreachable)]
         fn $name() {
             const SL: usize = $sl;
             const OL: usize = $ol;
@@ -127,6 +166,7 @@ macro_rules! ser_v9_data {
         #[kani::proof]
         #[kani::stub(core::fmt::write, no_fmt)]
         #[kani::stub(netflow_parser::variable_versions::data_number::FieldValue::from_field_type, unsigned_kernel_model)]
+        #[kani::stub(netflow_parser::variable_versions::data_number::FieldValue::to_be_bytes, fv_to_be_bytes_unsigned_model)]
         fn $name() {
             const B: usize = 7;
             let mut p = v9::V9Parser::default();
@@ -169,6 +209,7 @@ ser_v9_data!(ser_v9_data_4, 4);
 /// C09: options-data flowset (one record: 1 scope field + 1 option field, padding) round trip.
 #[kani::proof]
 #[kani::stub(core::fmt::write, no_fmt)]
+#[kani::stub(netflow_parser::variable_versions::data_number::FieldValue::to_be_bytes, fv_to_be_bytes_unreachable)]
 fn ser_v9_options_data() {
     const B: usize = 6;
     let sl: u16 = kani::any();
@@ -245,6 +286,7 @@ macro_rules! ser_ipfix_template {
     ($name:ident, $fc:expr, $ent:expr, $pad:expr) => {
         #[kani::proof]
         #[kani::stub(core::fmt::write, no_fmt)]
+        #[kani::stub(netflow_parser::variable_versions::data_number::FieldValue::to_be_bytes, fv_to_be_bytes_unreachable)]
         fn $name() {
             const FC: usize = $fc;
             const ENT: [bool; 2] = $ent;
@@ -295,6 +337,7 @@ macro_rules! ser_ipfix_data {
         #[kani::proof]
         #[kani::stub(core::fmt::write, no_fmt)]
         #[kani::stub(netflow_parser::variable_versions::data_number::FieldValue::from_field_type, unsigned_kernel_model)]
+        #[kani::stub(netflow_parser::variable_versions::data_number::FieldValue::to_be_bytes, fv_to_be_bytes_unsigned_model)]
         fn $name() {
             const B: usize = 5;
             let mut p = ipfix::IPFixParser::default();
@@ -338,6 +381,7 @@ ser_ipfix_data!(ser_ipfix_data_4, 4);
 #[kani::proof]
 #[kani::stub(core::fmt::write, no_fmt)]
 #[kani::stub(netflow_parser::variable_versions::data_number::FieldValue::from_field_type, unsigned_kernel_model)]
+#[kani::stub(netflow_parser::variable_versions::data_number::FieldValue::to_be_bytes, fv_to_be_bytes_unsigned_model)]
 fn ser_ipfix_varlen_kf() {
     const B: usize = 3;
     let mut p = ipfix::IPFixParser::default();
@@ -370,6 +414,7 @@ fn ser_ipfix_varlen_kf() {
 /// consumed) and must re-export as those 4 bytes.
 #[kani::proof]
 #[kani::stub(core::fmt::write, no_fmt)]
+#[kani::stub(netflow_parser::variable_versions::data_number::FieldValue::to_be_bytes, fv_to_be_bytes_unreachable)]
 fn ser_v9_short_length() {
     const N: usize = 6;
     let mut p = v9::V9Parser::default();
